@@ -80,6 +80,8 @@ fn rejected_candidates(quick: bool) -> Vec<String> {
             "#( drop #)", "#( 1 0 / #)", "#( foo #)", "! nosuch", "endenum", "var", ":", "^}", "let", "1 let &",
         ]
     };
+    // failures inside text injected by `~)`: the unread tail of the outer source must go too
+    let prefixes: Vec<&str> = prefixes.into_iter().chain(vec!["#( \"1 foo 2\" ~)", "#( \"7\" ~) 8 #( \"then\" ~)", ": f #( \"1 12x\" ~)"]).collect();
     let trailing: Vec<&str> = if quick { vec!["", "2 3", ": g ;", "\"<T>\" print"] } else { vec!["", "2 3", ": g ;", "#)", "\"<T>\" print", "then", "\n7 var x"] };
     let mut out = vec![];
     for p in &prefixes {
@@ -395,6 +397,66 @@ pub fn run(cfg: &Cfg) -> i32 {
         rt_steps = steps.load(Ordering::Relaxed);
     }
 
+    // ---------- code that was compiled but not run yet survives a rejected source
+    let mut pending_cases = 0u64;
+    {
+        let rej: Vec<&String> = rejected.iter().step_by(if quick { 5 } else { 1 }).collect();
+        let cnt = AtomicU64::new(0);
+        par_run(cfg.threads, rej.len(), 4, |_t, pull| {
+            let base = {
+                let mut xs = boot();
+                let _ = xs.set_insn_limit(Some(100_000));
+                xs
+            };
+            while let Some(rg) = pull() {
+                for ri in rg {
+                    let r = rej[ri];
+                    for g1 in GOOD.iter() {
+                        for g2 in GOOD.iter().take(if quick { 4 } else { GOOD.len() }) {
+                            cnt.fetch_add(1, Ordering::Relaxed);
+                            let run = |with: bool| -> Result<(Vec<String>, Vec<String>, String), String> {
+                                let mut xs = base.clone();
+                                let mut kinds = vec![];
+                                kinds.push(res_kind(&guarded(|| xs.compile(g1))?));
+                                if with {
+                                    let k = guarded(|| xs.compile(r))?;
+                                    if k.is_ok() {
+                                        return Err("not-rejected".into());
+                                    }
+                                }
+                                kinds.push(res_kind(&guarded(|| xs.compile(g2))?));
+                                kinds.push(res_kind(&guarded(|| xs.run())?));
+                                Ok((kinds, stack_of(&xs), xs.read_stdout().unwrap_or_default()))
+                            };
+                            match (run(true), run(false)) {
+                                (Ok(mut a), Ok(b)) => {
+                                    if r.contains("#(") {
+                                        // text inside a meta block runs while it is read: its output is legitimate
+                                        a.2 = b.2.clone();
+                                    }
+                                    if a != b {
+                                        rep.report_w("pending-code:rejected-source-has-effect", (g1.len() + r.len() + g2.len()) as u64, || {
+                                            jo(vec![
+                                                ("kind", js("compile-without-run")),
+                                                ("calls", J::A(vec![js(format!("compile {}", g1)), js(format!("compile {}   (rejected)", r)), js(format!("compile {}", g2)), js("run")])),
+                                                ("with_the_rejected_source", js(format!("{:?}", a))),
+                                                ("without_it", js(format!("{:?}", b))),
+                                            ])
+                                        });
+                                    }
+                                }
+                                (Err(e), _) if e == "not-rejected" => {}
+                                (a, b) => rep.report_w("panic:pending-code", r.len() as u64, || jo(vec![("rejected", js(r.clone())), ("errors", js(format!("{:?} {:?}", a.err(), b.err())))])),
+                            }
+                        }
+                    }
+                }
+            }
+        });
+        pending_cases = cnt.load(Ordering::Relaxed);
+    }
+    ev.add("compile_without_run_cases", ji(pending_cases));
+
     // ---------- process-level leg: the same claim through the real REPL (line = compile then run)
     let mut repl_runs = 0u64;
     {
@@ -451,6 +513,12 @@ pub fn run(cfg: &Cfg) -> i32 {
                                     ])
                                 });
                             }
+                        }
+                        (Err(e), Ok(_)) => {
+                            // the run with the rejected line hangs / dies / never reaches the probe
+                            rep.report_w("repl:rejected-line-has-effect", (with.len() * 100 + r.len()) as u64, || {
+                                jo(vec![("kind", js("repl-lines")), ("lines", J::A(with.iter().map(|l| js(l.clone())).collect())), ("same_without", js(r.clone())), ("with_the_rejected_line", js(e.clone()))])
+                            });
                         }
                         (a, b) => {
                             cleanup();
